@@ -109,14 +109,15 @@ func excluded(fn, mode string, args []string) string {
 		if len(args) == 3 {
 			empty := true
 			for _, a := range args {
-				empty = empty && (a == "nil" || a == "el")
+				empty = empty && (a == "nil" || a == "el" || a == "i:socket")
 			}
 			if empty {
 				return "waits on empty socket lists without a timeout, by contract forever"
 			}
 		}
 	case "net:wait-for-input":
-		if 0 < len(args) && args[0] == "el" {
+		if 0 < len(args) && (args[0] == "el" || args[0] == "i:socket") {
+			// (a socket instance that was never opened has no descriptor: the set that is waited on is empty)
 			return "waits on an empty socket list without a timeout, by contract forever"
 		}
 	case "gi:make-app":
